@@ -2,6 +2,7 @@
 package c06
 
 import (
+	"errors"
 	"bytes"
 	"fmt"
 	"os"
@@ -153,11 +154,23 @@ func TestProp_Tokens(t *testing.T) {
 				info.Nonce = x.nonce
 				req := vkit.Sign(info, a.CertPriv)
 				before := nodeSnap()
+				// now and then the storage fails to remove the token record during this use
+				removalFails := rapid.IntRange(0, 5).Draw(t, "tokenRemovalFails") == 0
+				if removalFails {
+					w.Rec.Fault = func(i int, op vkit.Op) error {
+						if op.Kind == "remove" && op.Type == "ServerLedActivationToken" {
+							return &vkit.InjectedError{Inner: errors.New("storage cannot remove the record right now")}
+						}
+						return nil
+					}
+					flags["use-with-failing-token-removal"] = true
+				}
 				var resp *types.FetchNodeCredentialsResponse
 				var err error
 				pv, _ := vkit.Guard(func() {
 					resp, err = registration.FetchNodeCredentials(w.Ctx, w.Store, req, w.O(nodeenrollment.WithMaximumServerLedActivationTokenLifetime(life))...)
 				})
+				w.Rec.Fault = nil
 				got := pv == nil && err == nil && resp != nil && len(resp.EncryptedNodeCredentials) > 0
 				if pv != nil {
 					rec.Count("panics_on_tampered_stored_record", 1)
@@ -166,7 +179,7 @@ func TestProp_Tokens(t *testing.T) {
 				loadable := x.status == "outstanding" && x.corrupt == ""
 				expect := loadable && unexpired && who == "fresh-key"
 				x.uses++
-				h := fmt.Sprintf("use[%s,%s,token %s age=%v corrupt=%q] -> %v", lname, who, x.status, now.Sub(x.created).Round(time.Second), x.corrupt, got)
+				h := fmt.Sprintf("use[%s,%s,token %s age=%v corrupt=%q%s] -> %v", lname, who, x.status, now.Sub(x.created).Round(time.Second), x.corrupt, map[bool]string{true: ",storage fails to remove the token record", false: ""}[removalFails], got)
 				hist = append(hist, h)
 				if x.uses > 1 {
 					flags["re-use"] = true
@@ -201,7 +214,7 @@ func TestProp_Tokens(t *testing.T) {
 					registered = append(registered, a)
 					return
 				case !got && expect:
-					if x.corrupt == "" && x.extended == "" {
+					if x.corrupt == "" && x.extended == "" && !removalFails {
 						vkit.Violate(t, prop, "C06/valid-token-refused", fmt.Sprintf("an unused, unexpired token presented by a fresh key was refused: %v", err), detail)
 					}
 				}
@@ -223,6 +236,13 @@ func TestProp_Tokens(t *testing.T) {
 				// failed use: node records unchanged
 				if d := vkit.DiffSnap(before, nodeSnap()); d != "" {
 					vkit.Violate(t, prop, "C06/failed-use-changed-node-records", d, detail)
+				}
+				if removalFails {
+					// whether the attempt consumed the token is for the storage to say
+					if rawTok(x.id) == nil && x.status == "outstanding" {
+						x.status = "used"
+					}
+					return
 				}
 				// a loadable, unexpired token is consumed by the attempt even when the key has a record
 				if loadable && unexpired && x.corrupt == "" && x.extended == "" {
